@@ -21,3 +21,5 @@ import MicroHttp.Props.C08System
 #print axioms MicroHttp.C08.received_is_own_queue
 #print axioms MicroHttp.C08.queue_is_answers_and_interims
 #print axioms MicroHttp.C08.answers_match_yields
+#print axioms MicroHttp.C08.finitely_many_polls
+#print axioms MicroHttp.C08.polls_end_idle
